@@ -417,6 +417,15 @@ func shapeOf(body block) string {
 	return b.String()
 }
 
+// Bodies exposes the termination family to other properties: every enumerated body of func f() int.
+func Bodies(thorough bool, yield func(family string, body []*st.S)) {
+	each(thorough, func(family string, v variant, body block) {
+		if v.name == "plain" {
+			yield(family, body)
+		}
+	})
+}
+
 func each(thorough bool, yield func(family string, v variant, body block)) {
 	vs := variants()
 	// (1) width 2, depth 1 (and depth 2 in thorough... see below)
